@@ -7,7 +7,9 @@ import Ixd.GCPass
   matter (F6 repaired);
 * `empty_removed`: a repository that the collection leaves without entries and blobs (no upload session, no foreign
   file) is removed from the disk entirely, whatever algorithm directories exist (F7 repaired);
-* `blobs_keep_layout`: a repository that still holds a blob keeps `index.json` and `oci-layout` (F5 repaired).
+* `blobs_keep_layout`: a repository that still holds a blob keeps `index.json` and `oci-layout` (F5 repaired);
+* `pruned_live_has_layout`: after the pruning the store believes in a repository only if its `oci-layout` is there
+  (F5, second half, repaired).
 -/
 namespace Ixd
 
@@ -220,6 +222,20 @@ theorem empty_removed' (p : Policy) (r : DirRepo)
   rw [e3, e2]
   exact pruneEmpty_clean _ h1 hs c1 c2 c3 hbl
 
+/-- F5 (second half) repaired: after the pruning the store believes in the repository only if its `oci-layout` is there —
+    a repository whose layout files went while something foreign kept the directory is initialised again by the next push -/
+theorem pruned_live_has_layout' (r : DirRepo) : (pruneEmpty r).live = true → (pruneEmpty r).layoutFile = true := by
+  unfold pruneEmpty
+  split
+  · intro h; simp at h
+  · simp only []
+    split
+    · intro h; simp at h
+    · rename_i hc
+      intro _
+      simp only [Bool.or_eq_true, Bool.not_eq_true', not_or] at hc
+      simpa using hc.2
+
 /-! ## a repository that holds blobs is not taken apart -/
 
 /-- if an invariant survives every step before `g`, and `g` fails under it without changing anything, the sequence
@@ -319,7 +335,10 @@ theorem pruneEmpty_holds {b : Blob} {lay : Bool} (x : DirRepo) (h : HoldsBlob b 
     rw [hres] at s1 s2
     simp only [] at s1 s2
     subst s1
-    exact s2
+    simp only []
+    split
+    · exact s2
+    · exact s2
 
 /-- C06/C05 (F5 repaired): a repository in which the collection leaves a blob keeps its `index.json` and `oci-layout`
     (and the blob), even when `EmptyRepo` is set and the index has no entry -/
